@@ -237,7 +237,11 @@ def genLine (args impl : List String) : String :=
   | _ => "bad-op | |"
 
 /-- drift <ppm|none> => ok <ppb> | refused <rc> | rejected -/
-def driftLine (args impl : List String) : String :=
+def driftLine (args0 impl : List String) : String :=
+  -- `@prior <ppb>` (restart over a previous instance's live record) and `@env` (environment variables
+  -- the binary mentions are set): the published rate depends on neither
+  let args := args0.takeWhile (fun t => !t.startsWith "@")
+  let mods := args0.dropWhile (fun t => !t.startsWith "@")
   let arg : Option (Option Int) := match args with
     | ["none"] => some none
     | [x] => x.toInt?.map some
@@ -262,6 +266,7 @@ def driftLine (args impl : List String) : String :=
         | none => ["omitted"]
         | some r => (if r * 1000 ≥ 4294967296 then ["unrepresentable"] else ["representable"]) ++
                     (if r + 2 ≥ 4294968 ∧ r ≤ 4294970 then ["boundary"] else [])
+      let tags := tags ++ (if mods.contains "@prior" then ["priorLive"] else []) ++ (if mods.contains "@env" then ["envSet"] else [])
       s!"{mtxt} | {v} | {String.intercalate "," tags}"
 
 /-! ### seqlock scenarios -/
